@@ -1,7 +1,7 @@
 SPECIFICATION Spec
 CONSTANTS
   BodyVals = {0, 8, 17}
-  MaxBody = 9
+  MaxBody = 5
   MaxAppends = 2
   VerifyAll = TRUE
 
